@@ -100,10 +100,7 @@ def routed_one(ws2: "InternalStepWorkerState", ws: "InternalStepWorkerState", ti
 class AddEventTick:
     properties = ["C02", "C10", "C01", "C03", "C04", "C35"]
     clause_props = {
-        "ensures_resolved_waiter_kept": ["C10"],
-        "ensures_waiters": ["C10"],
-        "ensures_routing": ["C02"],
-        "ensures_unhandled": ["C02"],
+        "ensures_resolved_waiter_kept": ["C10"],  # (known finding: attributed to one property only)
     }
     raises = []
 
